@@ -700,6 +700,22 @@ func c20Probe(limits bool) func(w *mintops.W) {
 				}
 			}
 		}
+		// a successful request whose answer carries no signature (inputs given up for no outputs) is a successful request:
+		// its replay is served from the cache like any other
+		if qid, qh := x.mintQuote(1, ""); qid != "" {
+			w.LN.Settle(qh)
+			o1 := u.Outputs(x.act, 1)
+			mr := x.call("POST", "/v1/mint/bolt11", fmt.Sprintf(`{"quote":%q,"outputs":%s}`, qid, outsJSON(o1)))
+			if mr.code == 200 {
+				if sg := x.sigsShape("mint(1)", mr.obj, o1); sg != nil {
+					burnBody := fmt.Sprintf(`{"inputs":%s,"outputs":[]}`, insJSON(x.unblind(sg, o1)))
+					fb := x.call("POST", "/v1/swap", burnBody)
+					if fb.code == 200 {
+						x.nut19("swap-without-outputs", "/v1/swap", burnBody, fb, 11001)
+					}
+				}
+			}
+		}
 		// restore batches in which nothing (or no output at all) is found: still the two arrays
 		for name, body := range map[string]string{"none-signed": fmt.Sprintf(`{"outputs":%s}`, outsJSON(u.Outputs(x.act, 1, 2))), "empty": `{"outputs":[]}`} {
 			r = x.call("POST", "/v1/restore", body)
